@@ -7,6 +7,8 @@
 //	go2coq Formulas | FormulasInfo | FormulasAttr | FormulasHeal | FormulasShield | FormulasTurn | FormulasQueue -repo <path>
 //	                               the pure leaf formulas and constant tables translated into Gallina
 //	                               (formulas.go, formulas_specs.go; these load only the packages they translate)
+//	go2coq DispatchTable -repo <path>  the modifier manager's listener dispatch (pkg/engine/modifier/listener.go) as a
+//	                               first-order table: Subscribe wiring, walks, gates, callbacks (dispatch.go)
 //
 // It loads every package under ./pkg, ./internal and ./cmd of the repository with full type
 // information (golang.org/x/tools/go/packages; test files and files excluded by build
@@ -63,6 +65,8 @@ func main() {
 		fmt.Print(genGlobals(root))
 	case "Formulas", "FormulasInfo", "FormulasAttr", "FormulasHeal", "FormulasShield", "FormulasTurn", "FormulasQueue":
 		fmt.Print(genFormulas(root, gen))
+	case "Dispatch", "DispatchTable":
+		fmt.Print(genDispatch(root))
 	default:
 		die("unknown generator %q", gen)
 	}
